@@ -219,6 +219,36 @@ func (m *Machine) setupModels() {
 		}
 		return mapKey(v)
 	}
+	// sync.Pool: a LIFO free list attached to the receiver (one goroutine, no GC): Put followed by Get hands the
+	// same object back, which is what lets reuse bugs show
+	type syncPool struct{ free []Val }
+	spool := func(m *Machine, recv Val) *syncPool {
+		p := recv.(Ptr).P
+		if st, ok := m.sideTab[p].(*syncPool); ok {
+			return st
+		}
+		st := &syncPool{}
+		m.sideTab[p] = st
+		return st
+	}
+	reg("(*sync.Pool).Get", func(m *Machine, a []Val) Val {
+		st := spool(m, a[0])
+		if n := len(st.free); n > 0 {
+			v := st.free[n-1]
+			st.free = st.free[:n-1]
+			return v
+		}
+		pst := (*a[0].(Ptr).P).(Struct)
+		if f, ok := pst[fieldIndex(m.namedType("sync", "Pool"), "New")].(Func); ok && !f.Nil && f.Fn != nil {
+			return m.callFn(f.Fn, nil, f.Env)
+		}
+		return Iface{}
+	})
+	reg("(*sync.Pool).Put", func(m *Machine, a []Val) Val {
+		st := spool(m, a[0])
+		st.free = append(st.free, a[1]) // a pool is shared state by design (A5); what matters is what comes back out of it
+		return nil
+	})
 	reg("(*sync.Map).Load", func(m *Machine, a []Val) Val {
 		st := smap(m, a[0])
 		if v, ok := st.vals[skey(a[1])]; ok {
